@@ -252,6 +252,32 @@ pub fn run(ctx: &Ctx) -> i32 {
         st.count("special_letter_sets");
         check_case(ctx, st, &combos[i], Settings::new(CI | if i % 5 == 0 { VERB } else { 0 }));
     });
+    // test cases that lower-case to the same string but distribute the capitals differently, in both input
+    // orders (a per-build cache keyed by the lower-cased text would show here)
+    {
+        let letters: Vec<String> = gen::alphabet("case").into_iter().filter(|s| s.chars().any(|c| c.is_lowercase() || c.is_uppercase())).collect();
+        let mut sets: Vec<Vec<String>> = vec![];
+        for (i, x) in letters.iter().enumerate() {
+            for y in letters.iter().skip(i + 1).step_by(3) {
+                let (xl, xu, yl, yu) = (x.to_lowercase(), x.to_uppercase(), y.to_lowercase(), y.to_uppercase());
+                let a = format!("{xl}{yu}");
+                let b = format!("{xu}{yl}");
+                if a != b {
+                    sets.push(vec![a.clone(), b.clone()]);
+                    sets.push(vec![b, a]);
+                }
+            }
+            let (xl, xu) = (x.to_lowercase(), x.to_uppercase());
+            if xl != xu {
+                sets.push(vec![xu.clone(), xl.clone(), x.clone()]);
+                sets.push(vec![xl, x.clone(), xu]);
+            }
+        }
+        par_for(&ctx.run, sets.len(), |i, st| {
+            st.count("same_lowercase_different_casing_sets");
+            check_case(ctx, st, &sets[i], Settings::new(CI));
+        });
+    }
     let n = if ctx.thorough { 200_000 } else { 12_000 };
     let names = ["case", "mixed", "ab", "graph", "classes", "sigma"];
     let alphabets: Vec<(String, Vec<String>)> = names.iter().map(|a| (a.to_string(), gen::alphabet(a))).collect();
